@@ -288,7 +288,7 @@ func driveLifecycle(t *testing.T, in, out string, seed int64) {
 	tw := NewTraceWriter(out)
 	defer tw.Close()
 	for bi, b := range behaviours {
-		nameSet := map[string]bool{}
+		nameSet := map[string]bool{"na": true, "nb": true}
 		for _, st := range b {
 			if n := str(st["n"]); n != "" {
 				nameSet[n] = true
